@@ -336,12 +336,64 @@ def judge_heap(case):
                      f"{loaded:.3f} with 3 million unrelated lists alive"})
     return {"nontrivial": True, "outcome": "ok", "violations": viol, "_cpu": (lean, loaded)}
 
+def repeat_cases():
+    """one representative case per (op, form) of both gradient catalogues (the one with the most operands)"""
+    from mc import catalog_tensor as ct, catalog_nn as cn
+    reps = {}
+    for fam, cases in (("t", ct.cases("quick", "grad")), ("n", cn.cases("quick", "grad"))):
+        for c in cases:
+            k = (fam, c["op"], c.get("form", "fn"))
+            size = lambda q: (len(q["shapes"]), sum(int(np.prod(sh, dtype=int)) for sh in q["shapes"]))
+            if k not in reps or size(c) > size(reps[k]): reps[k] = c       # the case with the most operands, then the most elements
+    return [{"kind": "repeat", "fam": k[0], "shape": f"repeat:{k[1]}" + ("" if k[2] == "fn" else ":" + k[2]), "case": c} for k, c in sorted(reps.items())]
+
+REPEATS = 40
+
+def judge_repeat(case):
+    """the cost of a backward call is a function of the graph it walks: calling backward again and again over the same recorded
+    graph (gradient accumulation, a Jacobian row by row) costs the same every time.  Work = python + C call events inside the
+    call (sys.setprofile, no clock); the 40th call may not do more than 1.2x the work of the 2nd."""
+    from mc import catalog_tensor as ct, catalog_nn as cn
+    sg = harness.load(); harness.reset_modes(verify=False)
+    fam = ct if case["fam"] == "t" else cn; c = case["case"]
+    arrays = fam.arrays_for(c)
+    rg = [a.dtype.kind == "f" for a in arrays]
+    if c["op"] == "batch_norm" and (c.get("args") or {}).get("stats"): rg[-2:] = [False, False]
+    try:
+        with harness.quiet():
+            out, ts = fam.run_lib(c, arrays, rg)
+    except harness.HarnessError:
+        raise
+    except Exception:
+        return {"nontrivial": False, "outcome": "rejected", "violations": []}
+    if not out.requires_grad: return {"nontrivial": False, "outcome": "untracked", "violations": []}
+    work = []
+    for k in range(REPEATS):
+        g = sg.Tensor(np.ones(out.shape, dtype=out.dtype))
+        cnt = [0]
+        def prof(frame, event, arg):
+            if event in ("call", "c_call"): cnt[0] += 1
+        sys.setprofile(prof)
+        try:
+            out.backward(g)
+        except Exception as e:
+            sys.setprofile(None)
+            return {"nontrivial": True, "outcome": "raised", "violations": [{"kind": f"{case['shape']}:repeated-backward-raised",
+                    "detail": f"backward call #{k + 1} over the same graph: {type(e).__name__}: {str(e)[:100]}"}] if k else []}
+        finally:
+            sys.setprofile(None)
+        work.append(cnt[0])
+    viol = []
+    if work[-1] > 1.2 * work[1] + 5:
+        viol.append({"kind": f"{case['shape']}:cost-grows-with-earlier-calls", "detail": f"call events inside backward calls #2 and #{REPEATS} over the same graph: {work[1]} and {work[-1]}"})
+    return {"nontrivial": True, "outcome": "ok", "violations": viol}
+
 BUDGET_S = 60       # CPU seconds of this process: every case needs a few on the unchanged tree; a backward that has burnt this much is not linear
 WALL_S = 1800       # wall-clock backstop for a case that blocks without using the processor
 
 def _dispatch(case):
     k = case["kind"]
-    return judge_cost(case) if k == "cost" else judge_cputime(case) if k == "cputime" else judge_heap(case) if k == "heap" else judge(case)
+    return judge_repeat(case) if k == "repeat" else judge_cost(case) if k == "cost" else judge_cputime(case) if k == "cputime" else judge_heap(case) if k == "heap" else judge(case)
 
 def dispatch(case):
     """every case runs under a budget: an exponential traversal would otherwise never return (and a check that hangs decides
@@ -386,7 +438,7 @@ def all_cases(tier):
         out.append({"kind": "cputime", "shape": shape, "n": 5000 if shape not in ("ladder", "sum_over_detached_constants") else 2500})
     for shape, n in (("chain", 1500), ("chain", 6000), ("tree", 3000)):
         out.append({"kind": "heap", "shape": shape, "n": n})
-    return out
+    return out + repeat_cases()
 
 def replay(case):
     with harness.quiet():
@@ -399,10 +451,11 @@ def run(tier, seed):
            "rule": "program shapes {chain, diamond ladder (each node feeds the next two), binary-tree reduction, wide fan-in, "
                    "untracked loop under no_grad, untracked loop with no operand requiring grad, both also inside retain_grads and with a different Python-scalar operand at every step (global count of live Tensor objects must not grow)} x sizes %s, default recursion "
                    "limit; per case: backward completes, closed-form gradient, every backward function invoked exactly once "
-                   "(also on a second backward), <= 4 earlier tensors alive after an untracked loop; non-trivial = size >= 100"
-                   % (SIZES_Q if tier == "quick" else SIZES_T),
+                   "(also on a second backward), <= 4 earlier tensors alive after an untracked loop; non-trivial = size >= 100; "
+                   "repeated backward: one representative graph per (op, form) of both gradient catalogues, backward called %d times over it, call events of call #%d <= 1.2x those of call #2"
+                   % (SIZES_Q if tier == "quick" else SIZES_T, REPEATS, REPEATS),
            "samples": r["samples"], "exhaustive": True, "outcomes": r["outcomes"],
-           "max_depth": max(c["n"] for c in cases)}
+           "max_depth": max(c.get("n", 0) for c in cases)}
     return {"level": "exploration", "violations": r["violations"], "coverage": cov,
             "assumptions": ["'any depth that fits in memory' is decided up to the largest size of the ladder",
                             "cost is measured in backward-function invocations, not wall-clock"]}
